@@ -632,10 +632,6 @@ def euler_to_u(phi1, PHI, phi2):
 def _arctan2(y, x):
     """Modified arctan function used locally in u_to_euler().
     """
-    tol = 1e-8
-    if np.abs(x)<tol: x = 0
-    if np.abs(y)<tol: y = 0
-
     if x>0:
         return np.arctan(y/x)
     elif x<0 and y>=0:
